@@ -39,13 +39,16 @@ func (in *verifInput) Commit(e *Event) {
 	off := e.Offset
 	st := w.streamOf[off]
 	// C01: acknowledged by the output, and nothing earlier of the same stream is unfinished
-	vf.Assert(w.acked[off], "committed-event-was-acknowledged")
+	if !e.IsChildParentKind() { // the parent of a split is not sent itself; its children are
+		vf.Assert(w.acked[off], "committed-event-was-acknowledged")
+	}
 	for _, o := range w.order {
 		if o == off {
 			break
 		}
 		if w.streamOf[o] == st {
-			vf.Assert(w.acked[o] || w.dropped[o], "nothing-earlier-in-the-stream-is-unfinished")
+			// (a split parent is finished once it has been committed itself: it is never sent)
+			vf.Assert(w.acked[o] || w.dropped[o] || w.committed[o] > 0, "nothing-earlier-in-the-stream-is-unfinished")
 		}
 	}
 	// C02: once per event, in read order per stream
@@ -126,6 +129,29 @@ func (a *verifJoiner) Do(e *Event) ActionResult {
 	return ActionPass
 }
 
+// third kind of action: split an event into children (the parent is only committed, never sent)
+type verifSplitter struct {
+	w   *verifWorld
+	ctl ActionPluginController
+}
+
+func (a *verifSplitter) Start(_ AnyConfig, p *ActionPluginParams) { a.ctl = p.Controller }
+func (a *verifSplitter) Stop()                                     {}
+func (a *verifSplitter) Do(e *Event) ActionResult {
+	if e.IsTimeoutKind() {
+		return ActionDiscard
+	}
+	if e.IsChildKind() {
+		return ActionPass
+	}
+	items := e.Root.Dig("items")
+	if items == nil || !items.IsArray() {
+		return ActionPass
+	}
+	a.ctl.Spawn(e, items.AsArray())
+	return ActionBreak
+}
+
 const verifEventTimeout = 300 * time.Millisecond
 
 // C01 / C02 / C04 / C05: the integrated pipeline under the symbolic scheduler.
@@ -185,6 +211,9 @@ func VerifH_C01_pipeline() {
 			joinInfo.MatchMode = MatchModeAnd
 		}
 		switch {
+		case vf.Param("split", 0) == 1:
+			proc.AddActionPlugin(&ActionPluginInfo{ActionPluginStaticInfo: &ActionPluginStaticInfo{PluginStaticInfo: &PluginStaticInfo{Type: "splitter"}}, PluginRuntimeInfo: &PluginRuntimeInfo{Plugin: &verifSplitter{w: w, ctl: proc}}})
+			proc.AddActionPlugin(filterInfo)
 		case !withJoin:
 			proc.AddActionPlugin(filterInfo)
 		case vf.Param("filter-after-join", 0) == 1:
@@ -216,7 +245,12 @@ func VerifH_C01_pipeline() {
 			if vf.Param("match", 0) == 1 && vf.Choose("matches-the-join-selector", 2) == 0 {
 				m = "0"
 			}
-			_ = e.Root.DecodeString(`{"stream":"` + name + `","m":"` + m + `"}`)
+			doc := `{"stream":"` + name + `","m":"` + m + `"}`
+			if vf.Param("split", 0) == 1 && vf.Choose("has-items", 2) == 1 {
+				doc = `{"stream":"` + name + `","items":[{"i":1},{"i":2}]}`
+				vf.Reach("split-event")
+			}
+			_ = e.Root.DecodeString(doc)
 			e.Offset, e.SourceID, e.SourceName = int64(i), 1, "src"
 			off := e.Offset
 			vf.Atomic(func() {
